@@ -24,7 +24,6 @@ def run(ctx):
         "Lean.Data.Json parser for node-types.json; reading of the documentation for the conventions listed in Props.lean",
     ]
     ctx.assumptions += ["tableWF (decidable, evaluated on every dumped language) for the look-ahead theorems",
-                        "ntWF (decidable, evaluated on every node-types file) for conforms_iff",
                         "only error-free trees are judged against node-types.json; exact-id acceptance pairs only from single-version parses"]
     ctx.regen()
     ctx.prove(["TsVerif.C16.Props"], "TsVerif/C16/Audit.lean")
@@ -113,7 +112,7 @@ def run(ctx):
                 corr_bad += 1
                 ctx.violation("corr", "node-types.json of %s unreadable or not saturating: %s" % (lid, kv.get("ntwf")),
                               {"case": cid, "spec": spec, "result": kv}, fingerprint={"lang": lid, "corr": "ntwf"}, found_input=False)
-            for k in ("judge_la", "judge_names"):
+            for k in ("judge_la", "judge_names", "judge_sup"):
                 judge_eval += 1
                 if kv.get(k) != "ok":
                     judge_bad += 1
